@@ -12,6 +12,9 @@ def _externs_for(cfile):
     ext = {}
     ext.update(extern_cpython.EXTERNS)
     ext.update(extern_blas.EXTERNS)
+    if cfile == 'lapack.c':
+        from contracts.c import extern_lapack
+        ext.update(extern_lapack.externs())
     return ext
 
 
@@ -25,7 +28,9 @@ def run_task(task):
         post = None
         init = driver.pycfunction_init
         cfg = {}
-        if mode == 'blas-wrapper':
+        if mode == 'lapack-wrapper':
+            pass
+        elif mode == 'blas-wrapper':
             from contracts.c import blas_spec
             ext.update(blas_spec.LOCAL_EXTERNS)
             if fn in blas_spec.ROWS:
